@@ -169,6 +169,7 @@ class BindEngine(Engine):
           if ((c['allow'] and p not in c['allow']) or p in c['deny']) and v != dflt.get(p, '<nodefault>'):
             fails.append(('non-configurable-parameter-injected', '%s.%s received %r (default %r)' %
                           (ctx['sel'], p, v, dflt.get(p))))
+    fails = m.readback_fails() + fails
     return {'obs': obs, 'fails': fails[:3], 'nontrivial': nontrivial, 'tags': tags}
 
 
